@@ -27,6 +27,10 @@ func init() {
 	runs["tapcb"] = runTapCb
 	gens["taptweak"] = genTapTweak
 	runs["taptweak"] = runTapTweak
+	gens["tapbig"] = genTapBig
+	runs["tapbig"] = runTapTree
+	gens["tapkeys"] = genTapKeys
+	runs["tapkeys"] = runTapKeys
 }
 
 var tapOrderN, _ = hex.DecodeString("fffffffffffffffffffffffffffffffebaaedce6af48a03bbfd25e8cd0364141")
@@ -102,8 +106,12 @@ func tapToLeaves(ls []tapLeafT) []taproot.TapElementsLeaf {
 func tapIsOdd(p *btcec.PublicKey) bool { return p.SerializeCompressed()[0] == 0x03 }
 
 func tapTreeLine(key *btcec.PublicKey, ls []tapLeafT) string {
+	return tapTreeLineAs("taptree", key, ls)
+}
+
+func tapTreeLineAs(family string, key *btcec.PublicKey, ls []tapLeafT) string {
 	var b sb
-	b.add("taptree")
+	b.add(family)
 	b.addh(key.SerializeCompressed())
 	qx, qodd := make([]byte, 32), false
 	if len(ls) > 0 {
@@ -431,4 +439,154 @@ func runTapTweak(t *Toks) string {
 	priv, _ := btcec.PrivKeyFromBytes(d)
 	tw := taproot.TweakTaprootPrivKey(priv, root)
 	return fmt.Sprintf("tw=%s after=%s", hx(tw.Serialize()), hx(priv.Serialize()))
+}
+
+// ---- tapbig: trees of 1..3 leaves one of which has a script around the compact-size
+// boundaries 0xfc/0xfd (1 -> 3 bytes) and 0xffff/0x10000 (3 -> 5 bytes). Same case format
+// and commands as taptree. ----
+
+var tapBigSizes = []int{0x10000, 0xfd, 70000, 0xfc, 0xffff, 0x10001, 0xfe, 0x10000 + 4096}
+
+func genTapBig(r *Rng, n int, w *bufio.Writer) {
+	for i := 0; i < n; i++ {
+		cnt := 1 + r.Intn(3)
+		if i%len(tapBigSizes) == 0 {
+			cnt = 1 // the lone-leaf path as well
+		}
+		ls := tapRndLeaves(r, cnt)
+		ls[r.Intn(cnt)].script = r.Bytes(tapBigSizes[i%len(tapBigSizes)])
+		fmt.Fprintln(w, tapTreeLineAs("tapbig", tapRndPriv(r).PubKey(), ls))
+	}
+}
+
+// ---- tapkeys: ONE assembled tree used with several internal keys, in a given order ----
+// tapkeys <n> (<ver> <script>)*n <k> (<key33> <qx> <qodd>)*k <m> (<key index> <leaf index>)*m
+
+func genTapKeys(r *Rng, n int, w *bufio.Writer) {
+	for i := 0; i < n; i++ {
+		cnt := 2 + r.Intn(4)
+		if r.Chance(10) {
+			cnt = 1
+		}
+		ls := tapRndLeaves(r, cnt)
+		tree := taproot.AssembleTaprootScriptTree(tapToLeaves(ls)...)
+		root := tree.RootNode.TapHash()
+		// 2..4 keys whose output keys have both parities
+		nk := 2 + r.Intn(3)
+		var keys []*btcec.PublicKey
+		var qs []*btcec.PublicKey
+		odd, even := false, false
+		for len(keys) < nk || !odd || !even {
+			k := tapRndPriv(r).PubKey()
+			q := taproot.ComputeTaprootOutputKey(k, root[:])
+			if len(keys) >= nk-1 && (!odd || !even) && ((tapIsOdd(q) && odd) || (!tapIsOdd(q) && even)) {
+				continue
+			}
+			if len(keys) >= nk {
+				break
+			}
+			keys, qs = append(keys, k), append(qs, q)
+			if tapIsOdd(q) {
+				odd = true
+			} else {
+				even = true
+			}
+		}
+		var b sb
+		b.add("tapkeys")
+		b.addn(uint64(cnt))
+		for _, l := range ls {
+			b.add(fmt.Sprintf("%02x", l.ver))
+			b.addh(l.script)
+		}
+		b.addn(uint64(len(keys)))
+		for j := range keys {
+			b.addh(keys[j].SerializeCompressed())
+			b.addh(schnorr.SerializePubKey(qs[j]))
+			b.add(b2s(tapIsOdd(qs[j])))
+		}
+		// key-major pass over a random key order, then leaf-major over the reverse order
+		// (every leaf, every key, twice), then a few random uses
+		perm := make([]int, len(keys))
+		for j := range perm {
+			perm[j] = j
+		}
+		for j := len(perm) - 1; j > 0; j-- {
+			k := r.Intn(j + 1)
+			perm[j], perm[k] = perm[k], perm[j]
+		}
+		var ops [][2]int
+		for _, kj := range perm {
+			for li := 0; li < cnt; li++ {
+				ops = append(ops, [2]int{kj, li})
+			}
+		}
+		if r.Bool() {
+			for li := cnt - 1; li >= 0; li-- {
+				for j := len(perm) - 1; j >= 0; j-- {
+					ops = append(ops, [2]int{perm[j], li})
+				}
+			}
+		}
+		for x := r.Intn(6); x > 0; x-- {
+			ops = append(ops, [2]int{r.Intn(len(keys)), r.Intn(cnt)})
+		}
+		b.addn(uint64(len(ops)))
+		for _, o := range ops {
+			b.addn(uint64(o[0]))
+			b.addn(uint64(o[1]))
+		}
+		fmt.Fprintln(w, strings.TrimSpace(b.String()))
+	}
+}
+
+type tapKeyT struct {
+	key  *btcec.PublicKey
+	qx   []byte
+	qodd bool
+}
+
+func tapReadKeys(t *Toks) ([]tapLeafT, []tapKeyT, [][2]int) {
+	n := t.Int()
+	ls := make([]tapLeafT, n)
+	for i := range ls {
+		v, err := hex.DecodeString(t.Next())
+		if err != nil || len(v) != 1 {
+			panic("bad version")
+		}
+		ls[i] = tapLeafT{v[0], t.Hex()}
+	}
+	ks := make([]tapKeyT, t.Int())
+	for j := range ks {
+		k, err := btcec.ParsePubKey(t.Hex())
+		if err != nil {
+			panic(err)
+		}
+		ks[j] = tapKeyT{k, t.Hex(), t.Int() == 1}
+	}
+	ops := make([][2]int, t.Int())
+	for x := range ops {
+		ops[x] = [2]int{t.Int(), t.Int()}
+	}
+	return ls, ks, ops
+}
+
+func runTapKeys(t *Toks) string {
+	ls, ks, ops := tapReadKeys(t)
+	tree := taproot.AssembleTaprootScriptTree(tapToLeaves(ls)...)
+	root := tree.RootNode.TapHash()
+	var sers []string
+	var ver strings.Builder
+	for _, o := range ops {
+		k, li := ks[o[0]], o[1]
+		cb := tree.LeafMerkleProofs[li].ToControlBlock(k.key)
+		bs, err := cb.ToBytes()
+		if err != nil {
+			return "res=err-tobytes"
+		}
+		sers = append(sers, hx(bs))
+		parsed, err := taproot.ParseControlBlock(bs)
+		ver.WriteString(b2s(err == nil && taproot.VerifyTaprootLeafCommitment(parsed, k.qx, ls[li].script) == nil))
+	}
+	return fmt.Sprintf("res=ok root=%s cbs=%s ver=%s", hx(root[:]), strings.Join(sers, ","), ver.String())
 }
